@@ -120,6 +120,11 @@ def generate(seed, index, tier):
                                      initial=True)}
         names.append('0001_initial')
     covered = list(names)
+    # the empty prefix: nothing is covered, every migration has to run (the
+    # initial one is soft-applied by Django when its tables exist)
+    empty_cover = (style == 'squash' or k == 0) and index % 7 == 6
+    if empty_cover:
+        covered = []
     rem_fields = []
     for j in range(remaining):
         f = _field('g%d' % (j + 1), rng)
@@ -214,6 +219,7 @@ def execute(scn):
                   remaining=scn['remaining'], extra=scn['extra'],
                   start=start, apps=P['order'],
                   doomed_model=bool(scn.get('doomed_model')),
+                  empty_cover=not scn['covered'],
                   faulted=bool(scn.get('fault')))
     res = {'violations': viols, 'stats': stats, 'nontrivial': True,
            'shape': spec.canon([scn['k'], scn['style'], scn['remaining'],
@@ -304,6 +310,9 @@ def execute(scn):
                     wrote = True
             return out
         brackets = brackets_of(r)
+        announced = [m for (m, w) in brackets]
+        if scn.get('fault') and 'f' in locals():
+            announced = [m for (m, w) in brackets_of(f)] + announced
         executed = [m for (m, w) in brackets if w]
         if scn.get('fault') and 'f' in locals():
             # migrations completed by the faulted run stay applied (Django
@@ -331,6 +340,15 @@ def execute(scn):
                                            migration=m, executed=executed,
                                            **detail))
             want_exec = [m for m in chain_final if m not in covered]
+            if not scn['covered'] and not already_moved:
+                # soft-applied: announced and recorded, nothing to write
+                want_exec = [m for m in want_exec if m != '0001_initial']
+                stats['empty_cover'] = 1
+            for m in chain_final:
+                if m not in covered and m not in announced:
+                    viols.append(violation('C10.uncovered_not_announced',
+                                           migration=m, announced=announced,
+                                           **detail))
         else:
             want_exec = None
         rows = va_migration_rows(post)
